@@ -32,7 +32,7 @@ from typing import Any, Dict, List, Set
 from engine.srcmatch import U
 from engine.abseval import OTHER, Joined, Machine, mentioned_chars
 from engine.fold import EnumMember, Folder, Regex
-from engine.model import AnalysisError, Program, dotted, walk_no_nested
+from engine.model import inline_tail_helpers, AnalysisError, Program, dotted, walk_no_nested
 from engine.pyx import PyxFile, if_chain_byte_tests, bytes_literal
 
 LEVEL = 'proof'
@@ -332,7 +332,7 @@ def run(ctx: Any, prog: Program) -> None:
     # ---- T8: the obligations above are about what the handler does with the characters it is given; they describe the tokenizer
     # only if the handler is given *every* character.  _next_char therefore returns an element of the chunk (or None) and takes no
     # decision on what that element is: a filter here (a BOM skipped, a NUL dropped) removes characters from inside strings too.
-    nc = tk.func('Tokenizer._next_char')
+    nc, _nc_helpers = inline_tail_helpers(tk.func('Tokenizer._next_char'), tk.methods('Tokenizer'))
     char_vars: Set[str] = set()
 
     def is_char(e: ast.AST) -> bool:
@@ -527,6 +527,7 @@ def run(ctx: Any, prog: Program) -> None:
     ok = out.kind == 'next' and out.lists.get(acc) == ['\\'] and out.consumed == 1
     ctx.check('C02.T5', ok, tk, loop, f'with allow_escapes=False a backslash is an ordinary character; got {out!r}', text='allow_escapes gate')
     tables = {dotted(n.value) for n in ast.walk(hs) if isinstance(n, ast.Subscript) and dotted(n.value) and dotted(n.value).isupper()}
+    tables |= {dotted(n.func.value) for n in ast.walk(hs) if isinstance(n, ast.Call) and isinstance(n.func, ast.Attribute) and n.func.attr in ('get', '__getitem__') and dotted(n.func.value) and dotted(n.func.value).isupper()}
     ctx.check('C02.T5', tables == {'ESCAPES'}, tk, hs, f'the handler must decode through ESCAPES only; tables subscripted: {sorted(tables)}', text='decode tables')
 
     # ---- T6 ------------------------------------------------------------------------------------
